@@ -16,9 +16,10 @@ ForestProg == Program(<<Enum("Tree", Mod, <<>>, <<Variant("Leaf", 0, <<>>), Vari
                                                       SField("f", P_Arr(A0("Tree"), 3)), SField("g", P_Opt(A0("Tree")))>>),
                         Struct("Nest", Mod, <<>>, <<SField("a", P_Vec(P_Compact(u16))), SField("b", P_Opt(P_Compact(u64))), SField("c", P_Tup(<<P_Compact(u8), P_Adt("NonCompact", <<u8>>)>>)),
                                                     SField("d", P_Adt("NonCompact", <<bool>>)), SField("e", P_Compact(u32)), CField("f", u32)>>),
-                        Struct("NonCompact", Mod, <<Param("T")>>, <<SField("", T)>>)>>, <<>>)
+                        Struct("NonCompact", Mod, <<Param("T")>>, <<SField("", T)>>),
+                        Struct("Long", Mod, <<>>, <<SField("bloom", P_Arr(u8, 300)), SField("w", P_Arr(u32, 257)), SField("s", P_Arr(bool, 33))>>)>>, <<>>)
 Extra == {[fam |-> "G12", prog |-> EmptyEnumProg, roots |-> <<A0("DeepNever"), A0("Big")>>],
-          [fam |-> "G12", prog |-> ForestProg, roots |-> <<A0("Forest"), A0("Nest")>>]}
+          [fam |-> "G12", prog |-> ForestProg, roots |-> <<A0("Forest"), A0("Nest"), A0("Long")>>]}
 Cases == CASE FAMILY = "G1a_1" -> G1a_1(0) [] FAMILY = "G1c" -> G1c(0) \cup Extra [] FAMILY = "G8" -> G8(0) \cup G8b(0)
 
 VARIABLES c, id
